@@ -1,0 +1,110 @@
+//go:build verif
+
+package pool
+
+import (
+	"sync"
+	"unsafe"
+
+	"github.com/IrineSistiana/bytespool"
+	"github.com/IrineSistiana/mosproxy/internal/verifhook"
+)
+
+// Ownership instrumentation of the byte buffer pool (build tag verif only).
+//
+// Every buffer handed out is registered by the address of its backing array.
+// A released buffer is filled with a poison pattern and parked in a FIFO
+// quarantine instead of going back to the pool at once; when it leaves the
+// quarantine the pattern is verified (a write after release destroys it).
+// Releasing something that is not registered as held (double release,
+// sub-slice, foreign slice) is reported and otherwise ignored.
+//
+// Events (verifhook.Ev):
+//   buf.get        id, size
+//   buf.release    id, held(bool)
+//   buf.quarantine id, intact(bool)
+
+const (
+	verifPoison     = 0xDB
+	verifQuarantine = 4096
+)
+
+type verifBufState struct {
+	id   int
+	held bool
+}
+
+var verifBufs = struct {
+	m      sync.Mutex
+	nextID int
+	reg    map[*byte]*verifBufState
+	q      [][]byte
+}{reg: make(map[*byte]*verifBufState)}
+
+func verifGetBuf(size int) Buffer {
+	b := bytespool.Get(size)
+	if cap(b) == 0 {
+		return b
+	}
+	key := unsafe.SliceData(b[:cap(b)])
+	verifBufs.m.Lock()
+	st := verifBufs.reg[key]
+	if st == nil {
+		verifBufs.nextID++
+		st = &verifBufState{id: verifBufs.nextID}
+		verifBufs.reg[key] = st
+	}
+	wasHeld := st.held
+	st.held = true
+	id := st.id
+	verifhook.Ev("buf.get", id, size, wasHeld)
+	verifBufs.m.Unlock()
+	return b
+}
+
+func verifReleaseBuf(b Buffer) {
+	if b == nil {
+		bytespool.Release(b) // keeps the original behaviour (panic)
+		return
+	}
+	if cap(b) == 0 {
+		return
+	}
+	key := unsafe.SliceData(b[:cap(b)])
+	verifBufs.m.Lock()
+	st := verifBufs.reg[key]
+	if st == nil || !st.held {
+		id := 0
+		if st != nil {
+			id = st.id
+		}
+		verifhook.Ev("buf.release", id, false)
+		verifBufs.m.Unlock()
+		return
+	}
+	st.held = false
+	verifhook.Ev("buf.release", st.id, true)
+	full := b[:cap(b)]
+	for i := range full {
+		full[i] = verifPoison
+	}
+	verifBufs.q = append(verifBufs.q, full)
+	var out []byte
+	if len(verifBufs.q) > verifQuarantine {
+		out = verifBufs.q[0]
+		verifBufs.q[0] = nil
+		verifBufs.q = verifBufs.q[1:]
+		intact := true
+		for _, c := range out {
+			if c != verifPoison {
+				intact = false
+				break
+			}
+		}
+		verifhook.Ev("buf.quarantine", verifBufs.reg[unsafe.SliceData(out)].id, intact)
+	}
+	verifBufs.m.Unlock()
+	if out != nil {
+		bytespool.Release(out)
+	}
+}
